@@ -8,6 +8,7 @@ import Gearpy.Model.Relations
 import Gearpy.Model.Record
 import Gearpy.Model.Snapshot
 import Gearpy.Model.UnitStep
+import Gearpy.Model.Pipeline
 import Gearpy.Generated.Tables
 /-!
 # driver — line protocol between the Python harness and the executable model
@@ -234,6 +235,17 @@ def execReport (c : Cfg) : List Op → St → Nat → St × Option (Nat × Err)
     | .error e => (s, some (i, e))
     | .ok s' => execReport c os s' (i + 1)
 
+def runHist (c : Cfg) (kv : KV) : String :=
+  let opsS := splitNE (kv.get "ops") ";"
+  let ops := opsS.filterMap parseOp
+  if ops.length ≠ opsS.length then "bad-op" else
+  let s0 : St := { St.init (kv.q "pos") (kv.q "speed") with pwm := (kv.q? "pwm0").getD 1 }
+  let (s, err) := execReport c ops s0 0
+  let head := match err with
+    | none => s!"ok locked={showBool s.locked}"
+    | some (i, e) => s!"err {e.toString} at={i} locked={showBool s.locked}"
+  head ++ " | " ++ " | ".intercalate (s.recs.map showRec)
+
 def handleSolver (ws : List String) : String :=
   match ws with
   | "hist" :: rest =>
@@ -436,6 +448,29 @@ def handleInterp (ws : List String) : String :=
   | some v => "ok " ++ approxQ (cell v ((kv.q? "f").getD 1))
   | none => "none"
 
+/-! ## declarations -> assembly -> simulation, all inside the model -/
+
+def handlePipe (rest : List String) : String :=
+      let kv := parseKV rest
+      let elS := splitNE (kv.get "elems") ";"
+      let els := elS.filterMap parseElem
+      let dS := splitNE (kv.get "decls") ";"
+      let ds := dS.filterMap parseDecl
+      if els.length ≠ elS.length || ds.length ≠ dS.length then "bad-op" else
+      let js := ((kv.get "inertias").splitOn ",").filterMap parseRat
+      (match assembleLinks T els ds 0 (fun i => js.getD i 0) with
+       | .error e => s!"err {e.toString} at=assembly"
+       | .ok (chain, links, sl) =>
+         let base := parseCfg kv
+         let m := parseMotor kv
+         let rulesS := kv.get "rules"
+         let env : CtlEnv := { motor := m, eff := ctlEff links, sqrt := qsqrt }
+         let ctl : Option (CtlIn → Except Err Q) :=
+           if rulesS == "-" || rulesS == "" then none
+           else some (pwmControl env ((splitNE rulesS ";").filterMap parseRule))
+         let c : Cfg := { base with J0 := js.getD 0 0, links := links, sl := sl, control := ctl }
+         s!"chain={",".intercalate (chain.map toString)} " ++ runHist c kv)
+
 /-! ## unit-level solver arithmetic -/
 
 def handleUStep (ws : List String) : String :=
@@ -464,6 +499,7 @@ def handle (line : String) : String :=
   match splitNE line.trimAscii.toString " " with
   | "u" :: rest => handleUnits rest
   | "m" :: rest => handleMotor rest
+  | "s" :: "pipe" :: rest => handlePipe rest
   | "s" :: rest => handleSolver rest
   | "k" :: rest => handleControl rest
   | "grid" :: rest => handleGrid rest
